@@ -114,6 +114,17 @@ fn handle(req: &Value) -> Value {
             let r = std::panic::catch_unwind(|| h::bounding_sphere(&pts, req["exact"].as_bool().unwrap_or(false)));
             match r { Ok((c, rad)) => json!({"c": j3(c), "r": rad}), Err(_) => json!({"panic": true}) }
         }
+        "nn_shifts" => {
+            // the complete candidate sequence of the periodic neighbour search for one query generator
+            let d = dim(&req["dim"]);
+            let gens: Vec<_> = req["gens"].as_array().unwrap().iter().enumerate().map(|(i, g)| h::generator_new(i, v3(g), d)).collect();
+            let q = req["query"].as_u64().unwrap() as usize;
+            let r = std::panic::catch_unwind(|| h::wrapping_nn_shifts(&gens, gens[q].loc(), v3(&req["width"]), d, req["take"].as_u64().unwrap() as usize));
+            match r {
+                Ok(seq) => json!({"seq": seq.iter().map(|(i, s)| json!([i, s.map(j3)])).collect::<Vec<_>>()}),
+                Err(_) => json!({"panic": true}),
+            }
+        }
         "halfspace_clip" => {
             let hs = meshless_voronoi::HalfSpace::new(v3(&req["n"]), v3(&req["p"]), None, None);
             json!({"r": hs.clip(v3(&req["v"]))})
